@@ -31,7 +31,7 @@ import re
 import datetime as _dt
 
 from .. import kernel as K
-from ..basicdrv import Driver, EngineCrash
+from ..basicdrv import Driver, EngineCrash, suspend_resume
 from .common import Run, execute, b, u, shash
 
 NAME = 'clock'
@@ -417,6 +417,10 @@ def gen(rng, tier, prop):
         else:
             name = rng.choice(ENV_NAMES + ['QZUNSET', 'QZ\xe9A', 'QZ\x01A'])
             ops.append({'op': 'getenv', 'name': _recase(rng, name)})
+    if rng.random() < 0.15:
+        # crash/restart: the session is saved, dropped and rebuilt from the state file; what was set stays set
+        for _ in range(rng.randint(1, 2)):
+            ops.insert(rng.randint(1, len(ops)), {'op': 'restart'})
     cfg = {
         'world': {'start_us': start, 'sleep0_us': rng.choice([0, 1, 50, 50, 500, 20000]),
                   'sim_cap_s': 86400 * 366 * 40},
@@ -851,6 +855,13 @@ def _body(run):
                     break
                 run.state(k, bucket())
                 note_roll(w.clock_us)
+            elif k == 'restart':
+                path = os.path.join(run.make_scratch(), 'state.bin')
+                d2 = crash_guard(lambda: suspend_resume(d, path), 'restart')
+                if d2 is None:
+                    break
+                d = d2
+                run.state(k, bucket(), len(env) > 0)
             elif k == 'jump':
                 w.jump_clock(op['s'])
                 # DESIGN C44: under a clock step only "no internal error" is required
